@@ -174,6 +174,58 @@ pub fn main(table: Table) -> ! {
     });
     let journal = arg(&args, "--journal").and_then(|p| std::fs::OpenOptions::new().create(true).write(true).truncate(true).open(p).ok());
     let ctx = Ctx { prop: prop.clone(), thorough: tier == "thorough", seed, batch: &batch, table: &table, kf: &kf, shard: shard.unwrap_or((0, 1)), journal };
+    if args.iter().any(|a| a == "--serve") {
+        // line protocol server (C07): <n> \t D|E \t <desc> \t <Type> \t <hex|json>
+        use std::io::{BufRead, Write};
+        let stdin = std::io::stdin();
+        let mut out = std::io::stdout();
+        for line in stdin.lock().lines() {
+            let Ok(line) = line else { break };
+            let p: Vec<&str> = line.split('\t').collect();
+            if p.len() < 2 {
+                continue;
+            }
+            if p[1] == "Q" {
+                break;
+            }
+            if p.len() < 5 {
+                continue;
+            }
+            let di: usize = p[2].parse().unwrap_or(usize::MAX);
+            let reply = match table.types.iter().find(|t| t.desc == di && t.name == p[3]) {
+                None => "ERR\tNoType\t0\t-".to_string(),
+                Some(t) => {
+                    if p[1] == "D" {
+                        let rep = (t.dec)(&unhex(p[4]));
+                        match &rep.full {
+                            Out::Ok(j) => {
+                                let reser = match &rep.reenc {
+                                    Some(Out::Ok(b)) => hex(b),
+                                    Some(o) => format!("EXC:{}", o.kind()),
+                                    None => "EXC:none".into(),
+                                };
+                                format!("OK\t{}\t{}\t{}\t-", p[3], j, reser)
+                            }
+                            Out::Err { kind, .. } => format!("ERR\t{kind}\t1\t-"),
+                            Out::Panic(m) => format!("ERR\tpanic:{}\t0\t-", panic_class(m)),
+                        }
+                    } else {
+                        let v: Value = serde_json::from_str(p[4]).unwrap_or(Value::Null);
+                        let rep = (t.enc)(&v, &[]);
+                        match (&rep.from_json, &rep.to_vec) {
+                            (Err(e), _) => format!("ERR\tbuild:{}\t0\t-", e.replace('\t', " ")),
+                            (_, Out::Ok(b)) => format!("OK\t{}\t{}", hex(b), rep.len.ok().copied().unwrap_or(0)),
+                            (_, Out::Err { kind, .. }) => format!("ERR\t{kind}\t0\t-"),
+                            (_, Out::Panic(m)) => format!("ERR\tpanic:{}\t0\t-", panic_class(m)),
+                        }
+                    }
+                }
+            };
+            let _ = writeln!(out, "{}\t{}", p[0], reply);
+            let _ = out.flush();
+        }
+        std::process::exit(0);
+    }
     if let Some(rp) = arg(&args, "--replay") {
         // replay one recorded case: prints failures as JSON lines
         let v: Value = serde_json::from_str(&std::fs::read_to_string(&rp).expect("replay file")).expect("replay json");
